@@ -833,29 +833,48 @@ impl Circuit {
     /// depends on itself.
     pub fn find_cycle(&self) -> Option<Literal> {
         let mut visited = FixedBitSet::with_capacity(self.gates.len() * 2);
+        // Depth-first search with an explicit stack of (gate, next input to
+        // look at): the depth of the search is the length of the longest
+        // chain of gates, which is only bounded by the size of the input.
+        let mut stack: Vec<(usize, usize)> = Vec::new();
 
-        fn inner(gates: &GateVec2d, visited: &mut FixedBitSet, index: usize) -> bool {
-            if visited.contains(index * 2 + 1) {
-                return false; // finished
+        for root in 0..self.gates.len() {
+            if visited.contains(root * 2 + 1) {
+                continue; // finished
             }
-            if visited.contains(index * 2) {
-                return true; // discovered -> cycle
-            }
-            visited.insert(index * 2); // discovered
+            visited.insert(root * 2); // discovered
+            stack.push((root, 0));
 
-            for &l in gates.get(index).unwrap().1 {
-                if l.is_gate() && inner(gates, visited, l.0 >> Literal::VAR_LSB) {
-                    return true;
+            while let Some((index, pos)) = stack.last_mut() {
+                let index = *index;
+                let inputs = self.gates.get(index).unwrap().1;
+                let mut descend = None;
+                while *pos < inputs.len() {
+                    let l = inputs[*pos];
+                    *pos += 1;
+                    if l.is_gate() {
+                        let child = l.0 >> Literal::VAR_LSB;
+                        if visited.contains(child * 2 + 1) {
+                            continue; // finished
+                        }
+                        if visited.contains(child * 2) {
+                            // discovered -> cycle
+                            return Some(Literal::from_gate(false, root));
+                        }
+                        descend = Some(child);
+                        break;
+                    }
                 }
-            }
-
-            visited.insert(index * 2 + 1); // finished
-            false
-        }
-
-        for index in 0..self.gates.len() {
-            if inner(&self.gates, &mut visited, index) {
-                return Some(Literal::from_gate(false, index));
+                match descend {
+                    Some(child) => {
+                        visited.insert(child * 2); // discovered
+                        stack.push((child, 0));
+                    }
+                    None => {
+                        visited.insert(index * 2 + 1); // finished
+                        stack.pop();
+                    }
+                }
             }
         }
         None
